@@ -780,3 +780,71 @@ M('injected_missing_swallowed', 'C13', FU,
   """            if inject_to_varkw and (fb.varkw is not None or fb.varargs is not None):
                 continue  # keyword arg will be caught by the varkw
             raise""")
+
+UR = 'boltons/urlutils.py'
+# ---------------------------------------------------------------- C06
+M('path_safe_question', 'C06', UR,
+  """_PATH_SAFE = _UNRESERVED_CHARS | _SUB_DELIMS | set(':@')""",
+  """_PATH_SAFE = _UNRESERVED_CHARS | _SUB_DELIMS | set(':@?')""")
+M('userinfo_safe_at', 'C06', UR,
+  """_USERINFO_SAFE = _UNRESERVED_CHARS | _SUB_DELIMS""",
+  """_USERINFO_SAFE = _UNRESERVED_CHARS | _SUB_DELIMS | set('@')""")
+M('query_plus_not_quoted', 'C06', UR,
+  """_QUERY_SAFE = _UNRESERVED_CHARS | _FRAGMENT_SAFE - set('&=+;')""",
+  """_QUERY_SAFE = _UNRESERVED_CHARS | _FRAGMENT_SAFE - set('&=;')""")
+M('fragment_safe_hash', 'C06', UR,
+  """_FRAGMENT_SAFE = _UNRESERVED_CHARS | _PATH_SAFE | set('/?')""",
+  """_FRAGMENT_SAFE = _UNRESERVED_CHARS | _PATH_SAFE | set('/?#')""")
+M('unquote_twice', 'C06', UR,
+  """        self.fragment = (unquote(ud['fragment'])
+                         if '%' in (ud['fragment'] or _e) else ud['fragment'] or _e)""",
+  """        self.fragment = (unquote(unquote(ud['fragment']))
+                         if '%' in (ud['fragment'] or _e) else ud['fragment'] or _e)""")
+M('userinfo_partition_first_at', 'C06', UR,
+  """        userinfo, sep, hostinfo = au_text.rpartition('@')""",
+  """        userinfo, sep, hostinfo = au_text.partition('@')""")
+M('no_nfc', 'C06', UR,
+  """    if full_quote:
+        bytestr = normalize('NFC', to_unicode(text)).encode('utf8')
+        return ''.join([_PATH_PART_QUOTE_MAP[b] for b in bytestr])""",
+  """    if full_quote:
+        bytestr = to_unicode(text).encode('utf8')
+        return ''.join([_PATH_PART_QUOTE_MAP[b] for b in bytestr])""")
+M('quote_latin1', 'C06', UR,
+  """    if full_quote:
+        bytestr = normalize('NFC', to_unicode(text)).encode('utf8')
+        return ''.join([_QUERY_PART_QUOTE_MAP[b] for b in bytestr])""",
+  """    if full_quote:
+        bytestr = normalize('NFC', to_unicode(text)).encode('latin-1', 'ignore') or normalize('NFC', to_unicode(text)).encode('utf8')
+        return ''.join([_QUERY_PART_QUOTE_MAP[b] for b in bytestr])""")
+M('ipv6_bracket_scan', 'C06', UR,
+  """                host = host + ':' + host_right + ']'""",
+  """                host = host + ':' + host_right.rstrip('1') + ']'""")
+M('port_zero_parse', 'C06', UR,
+  """            try:
+                port = int(port_str)
+            except ValueError:""",
+  """            try:
+                port = int(port_str) % 65000
+            except ValueError:""")
+M('unquote_bad_hex', 'C06', UR,
+  """        except KeyError:
+            append(b'%')
+            append(item)""",
+  """        except KeyError:
+            append(item)""")
+M('find_links_port_error', 'C06', UR,
+  """        except URLParseError:
+            # currently this should only be hit with broken port""",
+  """        except URLParseError if with_text else KeyError:
+            # currently this should only be hit with broken port""")
+# (not parsing '+' in query keys as space, or rendering a fragment space as '+' under minimal quoting, keep every
+#  clause of C06 true - they change the meaning of foreign text, not the round trip - so they are not listed)
+M('minimal_path_hash_raw', 'C06', UR,
+  """_PATH_DELIMS = _ALL_DELIMS - _PATH_SAFE""",
+  """_PATH_DELIMS = _ALL_DELIMS - _PATH_SAFE - set('#')""")
+M('empty_port_rejected', 'C06', UR,
+  """                if port_str:  # empty ports ok according to RFC 3986 6.2.3
+                    raise URLParseError""",
+  """                if port_str or host == 'localhost':  # empty ports ok according to RFC 3986 6.2.3
+                    raise URLParseError""")
